@@ -80,11 +80,19 @@ Hcp_event ==        \* back from OnPermissionCreated; answer
   /\ UNCHANGED <<hk, pcTP, pcTC, pcTA, mapped, closed, perm, ptimer, chn, ctimer, clock, found, crashed>>
 
 (* ChannelBind handler: Allocation.AddChannelBind *)
-Hcb_lookup ==       \* GetChannelByNumber / GetChannelByAddr (read locks, released)
-  /\ hk = "cb" /\ pcH = "B0" /\ clock = "free"
+Hcb_lookup ==       \* enters AddChannelBind, about to call GetChannelByNumber
+  /\ hk = "cb" /\ pcH = "B0"
+  /\ pcH' = "B0a"
+  /\ UNCHANGED <<hk, pcTP, pcTC, pcTA, mapped, closed, perm, ptimer, chn, ctimer, clock, found, evs, resp, crashed>>
+Hcb_bynumber ==     \* GetChannelByNumber (read lock taken and released): decides new / refresh
+  /\ hk = "cb" /\ pcH = "B0a" /\ clock = "free"
   /\ found' = [found EXCEPT !.chn = (chn = "present")]
-  /\ pcH' = "B1"
+  /\ pcH' = "B0b"
   /\ UNCHANGED <<hk, pcTP, pcTC, pcTA, mapped, closed, perm, ptimer, chn, ctimer, clock, evs, resp, crashed>>
+Hcb_byaddr ==       \* GetChannelByAddr (read lock taken and released): same number and peer, no conflict
+  /\ hk = "cb" /\ pcH = "B0b" /\ clock = "free"
+  /\ pcH' = "B1"
+  /\ UNCHANGED <<hk, pcTP, pcTC, pcTA, mapped, closed, perm, ptimer, chn, ctimer, clock, found, evs, resp, crashed>>
 Hcb_apply ==        \* new: Lock, append, start timer, then AddPermission's lookup; refresh: Reset, then the lookup
   /\ hk = "cb" /\ pcH = "B1"
   /\ IF found.chn
@@ -148,7 +156,7 @@ TA_event ==
   /\ UNCHANGED <<hk, pcH, pcTP, pcTC, mapped, closed, perm, ptimer, chn, ctimer, clock, found, resp, crashed>>
 
 Next == Hcp_lookup \/ Hcp_refresh \/ Hcp_insert \/ Hcp_event
-        \/ Hcb_lookup \/ Hcb_apply \/ Hcb_permrefresh \/ Hcb_perminsert \/ Hcb_permevent \/ Hcb_chanevent
+        \/ Hcb_lookup \/ Hcb_bynumber \/ Hcb_byaddr \/ Hcb_apply \/ Hcb_permrefresh \/ Hcb_perminsert \/ Hcb_permevent \/ Hcb_chanevent
         \/ TP_remove \/ TC_remove \/ TA_unmap \/ TA_close \/ TA_event
 Spec == Init /\ [][Next]_vars
 
